@@ -204,6 +204,11 @@ class SgzReader(object):
         assert self.block_bytes % self.unit_bytes == 0
         assert self.block_bytes == DISK_BLOCK_BYTES, f"block_bytes={self.block_bytes}, should be {DISK_BLOCK_BYTES}"
 
+        if self.compressed_data_diskblocks == 0:
+            # The very first files do not record the length of the compressed data, it follows from the dimensions
+            self.compressed_data_diskblocks = int(self.shape_pad[0] * self.shape_pad[1] * self.shape_pad[2]
+                                                  * self.rate) // 8 // DISK_BLOCK_BYTES
+
         # A 'chunk' is a group of one or more 'blocks' which span a complete set of traces.
         # This will follow the xline and iline shape of a 'block'
         self.chunk_bytes = self.block_bytes * (self.shape_pad[2] // self.blockshape[2])
